@@ -31,7 +31,7 @@ def setup(with_observed):
 
 
 EXPECTED = {"season": "first", "temperature": "mean", "observed": "sum", "predicted": "sum",
-            "predicted_unc": "apply:np.sqrt(np.sum(np.square(x)))", "heating_load": "sum", "cooling_load": "sum",
+            "predicted_unc": "apply:root_sum_square", "heating_load": "sum", "cooling_load": "sum",
             "model_split": "first", "model_type": "first"}
 
 AGG_CASES = [{"aggregation": a, "with_observed": w} for a in ["monthly", "bimonthly"] for w in [True, False]]
@@ -49,6 +49,8 @@ def columns(aggregation, with_observed):
         else:
             check("C19.present." + col, names.count(col) == 1)
     for c in res.cols:
+        # a callable the engine could not characterise (neither sum, mean nor root-sum-square of its argument) is UNDECIDED here; the bounded totals decide
+        recognise(not c.func.startswith("apply:text:"), "aggregation callable of column " + c.column + ": " + c.func)
         check("C19.columns." + c.column, c.func == EXPECTED[c.column])
         check("C19.keys." + c.column, c.rule == rule)
         # every column is aggregated over the rows of the SAME frame (the prediction, unfiltered), on its own index
